@@ -343,7 +343,10 @@ func (m *c12model) do(o c12op) {
 		it := c12item{tag: m.nextTag}
 		wr := FrameWriteRequest{write: c12hdr{m.nextTag}, stream: s.st}
 		if m.nextTag%2 == 0 {
-			it.data, it.end = true, vfBool("endstream")
+			it.data, it.end = true, m.nextTag%4 == 0
+			if !m.boolWin {
+				it.end = vfBool("endstream")
+			}
 			wr.write = &writeData{streamID: s.id, endStream: it.end}
 		}
 		p := vfExpectPanic(func() { m.ws.Push(wr) })
@@ -356,7 +359,10 @@ func (m *c12model) do(o c12op) {
 		for i := range b {
 			b[i] = byte(m.nextTag*16 + i)
 		}
-		end := vfBool("endstream")
+		end := m.nextTag%2 == 0
+		if !m.boolWin {
+			end = vfBool("endstream")
+		}
 		wr := FrameWriteRequest{write: &writeData{streamID: s.id, p: b, endStream: end}, stream: s.st}
 		p := vfExpectPanic(func() { m.ws.Push(wr) })
 		m.assert(!p, "Push(DATA) on an open stream must not panic")
@@ -418,7 +424,11 @@ func (m *c12model) popInner() (int, bool) {
 				m.assert(false, "Pop reports nothing while a frame that needs no flow control is queued")
 				continue
 			}
-			m.assert(c12min(c12min(wins[i], connWin), mfs) <= 0, "Pop reports nothing while a DATA frame is sendable under its window")
+			win := wins[i]
+			if m.boolWin {
+				win = int64(vfConcretize(uint64(win))) // decided on this path if the scheduler looked at the stream
+			}
+			m.assert(c12min(c12min(win, connWin), mfs) <= 0, "Pop reports nothing while a DATA frame is sendable under its window")
 		}
 		m.seen.popNothing = true
 		return -1, false
@@ -475,10 +485,19 @@ func (m *c12model) popInner() (int, bool) {
 		m.seen.popEmptyData = true
 		return si, false
 	}
-	allowed := c12min(c12min(wins[si], connWin), mfs)
+	win := wins[si]
+	if m.boolWin {
+		// the window (open or closed) of the stream that was served is decided on this path: use its value,
+		// which makes the next assertion concrete (no solver call)
+		win = int64(vfConcretize(uint64(win)))
+	}
+	allowed := c12min(c12min(win, connWin), mfs)
 	m.assert(vfAnd(allowed > 0, int64(n) == c12min(allowed, int64(r))), "DATA piece is min(window, max frame size, remaining) bytes and needs an open window")
 	m.assert(wd.endStream == vfAnd(n == r, h.end), "END_STREAM only on the last piece")
 	charged := vfAnd(int64(s.st.flow.n) == wins[si]-int64(n), int64(m.conn.n) == connWin-int64(n))
+	if m.boolWin {
+		charged = int64(vfConcretize(uint64(int64(s.st.flow.n)))) == win-int64(n) && int64(m.conn.n) == connWin-int64(n)
+	}
 	for i, o := range m.ss {
 		if i != si {
 			charged = vfAnd(charged, int64(o.st.flow.n) == wins[i])
